@@ -170,6 +170,12 @@ def run(ctx):
         ap = ASYNC + m
         B = hirq.Body(f, f.hir[sp])
         ctx.analysed['bodies'].add(sp)
+        if ap not in f.hir and (f.items.get(sp) or {}).get('vis') != 'pub':
+            # D is about the public LdapConn surface.  A private helper of the synchronous module has no sibling to agree with: what it
+            # does is judged where it is used - expanded into its callers at fact load when it is new, and otherwise an effect of its
+            # own (`effects`: a call into the crate that is not the sibling) in every public method that calls it
+            ctx.note('private LdapConn::%s has no asynchronous sibling: judged through its callers' % m)
+            continue
         if ap not in f.hir:
             ctx.fail('D.sibling-exists', m, loc(B.root), 'LdapConn::%s has no same-named Ldap method' % m)
             continue
